@@ -78,13 +78,18 @@ def ref_find(items, key, norm):
     return None
 
 
+def _data(it):
+    d = getattr(it, "data", None)
+    return None if d is None else repr(getattr(d, "tolist", lambda: d)())
+
+
 def snap(items):
-    return [(id(it), it.mnemonic, it.original_mnemonic, it.unit, repr(it.value), it.descr)
+    return [(id(it), it.mnemonic, it.original_mnemonic, it.unit, repr(it.value), it.descr, _data(it))
             for it in items]
 
 
 def snap_nosession(items):
-    return [(id(it), it.original_mnemonic, it.unit, repr(it.value), it.descr) for it in items]
+    return [(id(it), it.original_mnemonic, it.unit, repr(it.value), it.descr, _data(it)) for it in items]
 
 
 _seen_states = set()
